@@ -108,6 +108,7 @@ type tokenSpec struct {
 	Azp     string // authorized party claim ("" = absent)
 	Nbf     int64  // not-before claim (0 = absent)
 	Groups  int    // number of group names in a "groups" claim (large tokens)
+	Graft   string // class graftedOnAccepted: an honestly signed token the service was given earlier
 }
 
 func signRS256(k *rsa.PrivateKey, input string) []byte {
@@ -226,6 +227,14 @@ func mintID(ts tokenSpec) (tok string, sigOK bool) {
 	case "payloadTampered":
 		good := rs("k1", ks.k1)
 		parts := splitDots(good)
+		claims["sub"] = "admin"
+		return parts[0] + "." + jsonSeg(claims) + "." + parts[2], false
+	case "graftedOnAccepted":
+		// header and signature of a token the service accepted earlier, around a payload of the attacker's choosing
+		if parts := splitDots(ts.Graft); len(parts) == 3 {
+			return parts[0] + "." + payload + "." + parts[2], false
+		}
+		parts := splitDots(rs("k1", ks.k1))
 		claims["sub"] = "admin"
 		return parts[0] + "." + jsonSeg(claims) + "." + parts[2], false
 	case "sigTampered":
